@@ -93,7 +93,11 @@ def fragment_form(rng, big=False):
         t = r.get("type", "")
         if t.startswith("rank "):
             r["type"] = rng.choice(["select_one ", "select_multiple "]) + t.split(" ", 1)[1]
-    tops = [r["name"] for r, d, _ in _walk_rows(form) if d == 0 and "name" in r and not r.get("type", "").startswith(("begin", "end"))]
+        if r.get("type", "").startswith(("select_one ", "select_multiple ")) and rng.random() < 0.2:
+            r["type"] += rng.choice([" or_other", " or other", " or specify other"])
+    # reference targets: every named element (questions at any depth, inside repeats, and a few sections)
+    tops = [r["name"] for r, d, _ in _walk_rows(form)
+            if "name" in r and (not r.get("type", "").startswith(("begin", "end")) or rng.random() < 0.15)]
 
     def expr(self_name):
         forms = [". > 0", "true()", "1 + 1", "string-length(.) < 10", ". != ''", "yes", "no"]
@@ -118,7 +122,11 @@ def fragment_form(rng, big=False):
                 r["relevant"] = expr(nm)
             if rng.random() < 0.2:
                 r["appearance"] = rng.choice(APPEARANCES[kind])
+            if rng.random() < 0.1 and tops:
+                r["label"] = "Sec ${%s}" % rng.choice(tops)
             r.pop("repeat_count", None)
+            if kind == "repeat" and rng.random() < 0.3:
+                r["repeat_count"] = rng.choice(["3", "2 + 1", expr(nm), "${%s}" % rng.choice(tops)] if tops else ["3"])
             continue
         if base == "calculate":
             r["calculation"] = expr(nm)
@@ -141,13 +149,20 @@ def fragment_form(rng, big=False):
             r["calculation"] = expr(nm)
         if rng.random() < 0.2:
             r["appearance"] = rng.choice(APPEARANCES["sel" if base.startswith("select") else "q"])
-        if rng.random() < 0.2:
+        if rng.random() < 0.12 and base in ("text", "integer", "decimal", "date", "select_one", "select_multiple"):
+            r["default"] = rng.choice(["now()", "today()", "1 + 2", "uuid()", expr(nm), "concat('a', 'b')", "-1 + 2", "random()"])
+        elif rng.random() < 0.2:
             if base in STATIC_DEFAULTS:
                 r["default"] = rng.choice(STATIC_DEFAULTS[base])
             elif base.startswith("select"):
                 r["default"] = rng.choice(["a0", "b1", "x"])
         if rng.random() < 0.08:
             r[rng.choice(["label", "hint"])] = rng.choice(ADV_LABELS)
+        if rng.random() < 0.15 and tops:
+            # references in label / hint text: <output value="…"/> through the mixed channel
+            k = rng.choice(["label", "hint", "label"])
+            t = rng.choice(tops)
+            r[k] = rng.choice(["See ${%s}", "${%s}", "a ${%s} b ${%s}", "x < ${%s} & y", "  ${%s}!", "${%s}${%s}"]).replace("%s", t)
         if rng.random() < 0.01:
             r.pop("label", None)          # hint only, or rejected ("no label or hint")
     for c in form.get("choices", []):
@@ -167,7 +182,7 @@ def fragment_form(rng, big=False):
     elif r < 0.11:
         rows.append({"type": "geopoint", "name": "gp_x", "label": "Where"})
     elif r < 0.14 and tops:
-        rows.append({"type": "text", "name": "lbl_ref_q", "label": "See ${%s}" % tops[0]})
+        rows.append({"type": "text", "name": "lbl_ref_q", "label": rng.choice(["See ${nope_q}", "instance('x')/root/item[a=${%s}]/b" % tops[0], "${%s} is <b>bold</b>" % tops[0]])})
     elif r < 0.17 and len(rows) > 1:
         rows.append({"type": "text", "name": rows[0].get("name", "dupq"), "label": "dup"})
     elif r < 0.19:
@@ -178,6 +193,17 @@ def fragment_form(rng, big=False):
         rows.append({"type": "text", "name": "bad name", "label": "x"})
     elif r < 0.25:
         rows.append({"type": "text", "name": "ctl_q", "label": "a\x01b"})
+    elif r < 0.28:
+        rows.append({"type": "integer", "name": "unk_ref_q", "label": "U", "relevant": "${no_such_q} > 1"})
+    elif r < 0.32 and tops:
+        # the same name in two sections: fine unless it is referenced (then ambiguous → rejected)
+        t = rng.choice(tops)
+        rows += [{"type": "begin group", "name": "dupsec_g", "label": "G"}, {"type": "text", "name": t, "label": "again"},
+                 {"type": "end group"}]
+    elif r < 0.34:
+        rows.append({"type": "calculate", "name": "idx_q", "calculation": "indexed-repeat(${%s}, ${%s}, 1)" % ((tops or ["x"])[0], (tops or ["x"])[-1])})
+    elif r < 0.36:
+        rows.append({"type": "text", "name": "mal_q", "label": "M", "relevant": "${ bad} > 1"})
     return form
 
 
@@ -240,6 +266,15 @@ def e2e_case(ctx, form, record=True) -> None:
                              first_diff(r1.get("xform", ""), m["pretty"]), "see impl")
             else:
                 ctx.count("e2e:byte-exact")
+                if '="../' in r0["xform"] or " ../" in r0["xform"]:
+                    ctx.count("e2e:byte-exact with relative paths")
+                for key, pat in (("setvalue", "<setvalue "), ("jr:count", "jr:count="), ("or_other", "_other")):
+                    if pat in r0["xform"]:
+                        ctx.count("e2e:byte-exact with " + key)
+                if "<output " in r0["xform"]:
+                    ctx.count("e2e:byte-exact with <output> in labels")
+                    if '<output value=" ../' in r0["xform"]:
+                        ctx.count("e2e:byte-exact with relative <output>")
     if record:
         ctx.record({"form": form}, answered)
 
